@@ -408,6 +408,67 @@ func checkEthShape(e *Engine, r *Report, ds []*Decorator) {
 						return false
 					}
 				}
+				if q.needCall == nil {
+					// "must be empty / zero": the test has to be exact for EVERY value of the field — (in)equality with the zero
+					// value, or an ordering test that is equivalent to it (len(x) > 0, unsigned x > 0). An ordering test on a
+					// value converted to a signed type (int64(timeout) > 0) lets the upper half of the range through.
+					b, isB := i.Cond.(*ssa.BinOp)
+					if !isB {
+						return false
+					}
+					v, z := b.X, b.Y
+					isZero := func(x ssa.Value) bool {
+						c, ok := x.(*ssa.Const)
+						if !ok {
+							return false
+						}
+						if c.Value == nil {
+							return true
+						}
+						if k, isK := constInt(x); isK {
+							return k == 0
+						}
+						if sv, isS := constString(x); isS {
+							return sv == ""
+						}
+						return false
+					}
+					op := b.Op
+					if isZero(v) && !isZero(z) {
+						v, z = z, v
+						switch op {
+						case token.LSS:
+							op = token.GTR
+						case token.GTR:
+							op = token.LSS
+						case token.LEQ:
+							op = token.GEQ
+						case token.GEQ:
+							op = token.LEQ
+						}
+					}
+					if !isZero(z) {
+						return false
+					}
+					switch op {
+					case token.EQL, token.NEQ:
+					case token.GTR, token.LEQ: // x > 0 / x <= 0: exact only for values that cannot be negative
+						nonNeg := false
+						if c, _ := callOf(v); c != nil {
+							if bi, isBi := c.Call.Value.(*ssa.Builtin); isBi && bi.Name() == "len" {
+								nonNeg = true
+							}
+						}
+						if bt, isBT := v.Type().Underlying().(*types.Basic); isBT && bt.Info()&types.IsUnsigned != 0 {
+							nonNeg = true
+						}
+						if !nonNeg {
+							return false
+						}
+					default:
+						return false
+					}
+				}
 				return true
 			}, q.name)
 			if len(gs) == 0 {
